@@ -407,7 +407,11 @@ sha1_transform_sse(sha1_ctx_p ctx, const uint8_t *blocks, const uint8_t *blocks_
 	 * #define SHA1_GET_P_32(__P, __i) _mm_cvtsi128_si32(_mm_srli_si128((__P), ((__i) * 4)))
 	 */
 	//#define SHA1_GET_P_32(__P, __i) ((union sha1_v4si_u)(__P)).u32[(__i)]
+#ifdef __SSE4_1__
 	#define SHA1_GET_P_32(__P, __i) (uint32_t)_mm_extract_epi32((__P), (__i))
+#else /* _mm_extract_epi32() is SSE4.1: gcc refuse to build it for SSE2. */
+	#define SHA1_GET_P_32(__P, __i) (uint32_t)_mm_cvtsi128_si32(_mm_shuffle_epi32((__P), (__i)))
+#endif
 
 	hash = ctx->hash;
 	A = hash[0];
@@ -871,7 +875,7 @@ hmac_sha1_init(const uint8_t *key, size_t key_len, hmac_sha1_ctx_p hctx) {
 		key_len = SHA1_HASH_SIZE;
 		sha1_final(&hctx->ctx, (uint8_t*)k_ipad);
 		sha1_init(&hctx->ctx); /* Reinit context for 1st pass. */
-	} else {
+	} else if (0 != key_len) { /* Empty key may be NULL: memcpy(..., NULL, 0) is UB. */
 		memcpy(k_ipad, key, key_len);
 	}
 	memset((((uint8_t*)k_ipad) + key_len), 0x00, (SHA1_MSG_BLK_SIZE - key_len));
